@@ -3,7 +3,7 @@
 (* endpoint must show after it.  `form` says how the acknowledgements travel (appended to a *)
 (* data packet / PacketAck body / both); the specification does not care, the code must not. *)
 EXTENDS ClientCircuit_MC, Json
-CONSTANTS Forms
+CONSTANTS Forms, WithCarry
 Pairs(f) == {<<k, f[k]>> : k \in DOMAIN f}
 \* the state is only an identity for the harness (it rebuilds the graph); what it compares is Obs
 St == ToString(core)
@@ -12,6 +12,7 @@ Obs == [out |-> out, alive |-> alive, forgotten |-> {p \in DOMAIN rR : Get(evN, 
 \* a data message (matches the extra subscribers) carries its acks appended; a PacketAck message does not match
 FormsFor(acks, match) == IF match THEN {"app"} ELSE
                          IF Cardinality(acks) < 2 THEN Forms \ {"app", "mix"} ELSE Forms \ {"app"}
+Carries == IF ~WithCarry THEN {-1} ELSE {-1, 0, lastId, lastId + 1, lastId + 3} \cup PendIds
 MInit == MCInit /\ PrintT(ToJson([init |-> St, obs |-> Obs]))
 P(act) == PrintT(ToJson([src |-> St, act |-> act, dst |-> St', obs |-> Obs']))
 MNext == \/ \E p \in RelPids, acks \in AckSets : RecvRel(p, acks) /\ \A f \in FormsFor(acks, TRUE) :
@@ -23,8 +24,12 @@ MNext == \/ \E p \in RelPids, acks \in AckSets : RecvRel(p, acks) /\ \A f \in Fo
          \/ \E o \in Oldest : DoPing(o) /\ P([n |-> "Ping", oldest |-> o])
          \/ Lifecycle /\ GoAlive /\ P([n |-> "GoAlive"])
          \/ Lifecycle /\ Disconnect /\ P([n |-> "Disconnect"])
-         \/ DoSendRel /\ P([n |-> "SendRel"])
-         \/ DoSendUnrel /\ P([n |-> "SendUnrel"])
+         \* carry: the message object handed to send() already has a packet ID (a relayed / rebuilt / re-sent message):
+         \* none, an ID issued before (e.g. of a still unacked reliable send), the next one, a higher one.  The law does not
+         \* care -- a fresh, larger ID is issued and every reliable send has its own completion -- so all variants share dst.
+         \/ DoSendRel /\ \A c \in Carries : P([n |-> "SendRel", carry |-> c])
+         \/ DoSendUnrel /\ \A c \in Carries : P([n |-> "SendUnrel", carry |-> c])
          \/ \E d \in Ticks : Tick(d) /\ P([n |-> "Tick", d |-> d])
+         \/ \E d \in LoopTicks : LoopTick(d) /\ P([n |-> "LoopTick", d |-> d])
 MSpec == MInit /\ [][MNext]_vars
 ====
